@@ -888,6 +888,12 @@ func TestReplay(t *testing.T) {
 			t.Fatal(err)
 		}
 		checkFault(t, c)
+	case "TestShortWrites":
+		var c work.ShortCase
+		if err := json.Unmarshal(r.Case, &c); err != nil {
+			t.Fatal(err)
+		}
+		checkShort(t, c)
 	case "TestBigOffsets":
 		if msg := pinnedBig(r.Case); msg != "" {
 			var c BigCase
